@@ -527,7 +527,8 @@ def stream_directed(ck):
     if "ok" in a and "--" in a["ok"]:
         ck.disagreement("negation of an s-string starting with `-` emits an SQL comment: %s" % a["ok"],
                         {"stream": "directed", "src": src, "sql": a["ok"]}, lambda c: F["F3b"])
-    # C02-N5 / C02-N7 (open) and C02-N6 (repaired by e8f08a7): LIKE templates and f-string concatenation next to `||`.
+    # C02-N7 (open: f-string concatenation), C02-N6 and C02-N5 (repaired by e8f08a7 / bb7bbd5: LIKE templates; their ids are
+    # 'fixed', so a recurrence is a VIOLATION).
     # Each replay is compiled, and the emitted statement and a hand-parenthesised reference are executed on SQLite.
     import sqlite3
     conn = sqlite3.connect(":memory:")
@@ -538,6 +539,9 @@ def stream_directed(ck):
             ("N5", "from t | select {v = (a | text.contains (b * c))}", "a LIKE '%' || b * c || '%'", "SELECT a LIKE '%' || (b * c) || '%' AS v FROM t"),
             ("N5", "from t | select {v = (a | text.ends_with (b - c))}", "a LIKE '%' || b - c", "SELECT a LIKE '%' || (b - c) AS v FROM t"),
             ("N7", 'from t | derive d = b + c | select {v = f"{d}x"}', "b + c || 'x'", "SELECT (b + c) || 'x' AS v FROM t"),
+            # the shape pinned by /repo's own snapshot test_f_string / f_string-2 (`year_born - now()` between two `||`)
+            ("N7", 'from t | derive age = a - b | select {v = f"and I am {age} years old."}', "'and I am ' || a - b || ' years old.'",
+             "SELECT 'and I am ' || (a - b) || ' years old.' AS v FROM t"),
             ("N6", "from t | select {v = ((a == b) | text.contains c)}", "a = b LIKE", "SELECT (a = b) LIKE '%' || c || '%' AS v FROM t"),
             ("N6", "from t | select {v = ((a | text.contains c) < b)}", "|| '%' < b", "SELECT (a LIKE '%' || c || '%') < b AS v FROM t"),
             ("N6", "from t | select {v = ((a && b) | text.starts_with c)}", "a AND b LIKE", "SELECT (a AND b) LIKE c || '%' AS v FROM t")):
